@@ -6,6 +6,31 @@ sys.path.insert(0, HERE)
 VERIF = os.path.dirname(HERE)
 
 CLAIMED = {
+ "C01": dict(technique="Kani contracts: round/diagonalize leaf contracts per backend; core wiring (refill, refill4, refill_rounds) through the real dispatch with round as uninterpreted function; Buffer invariant + try_apply_keystream contract per shape; new() contracts per type",
+             text="Keystream == ChaCha specification: leaf contract of guts::round per backend (full domain), spec lemma standard double round == row formulation, wiring of every core entry point against the specification for symbolic key/nonce/64-bit counter on every dispatch arm, XOR/frame contract of try_apply_keystream from an arbitrary invariant state, and the initial state of all 7 cipher types (HChaCha for XChaCha).",
+             note="Bounded in per-call length only (<= 448 bytes per shape; quick: boundary shapes and drounds subset, thorough: dense grid, all drounds 0..=10). Trusted: Kani/CBMC, instruction and CPUID models, the uninterpreted-function rule (DESIGN.md 3.2).",
+             ref="DESIGN.md 4 C01"),
+ "C02": dict(technique="Kani contracts: representation invariant Inv(P) on Buffer; try_apply_keystream / try_seek (7 integer types) / try_current_pos contracts from an arbitrary Inv state",
+             text="Every operation is proved from an arbitrary state satisfying the representation invariant (symbolic counter incl. exhausted and fresh states, symbolic buffer, lazily pending block), so every history is covered by induction over operations; panics and overflow are checked in the same obligations.",
+             note="apply is proved per (buffer fill, length) shape, length <= 448; seek/current_pos are loop-free and full domain. refill/refill4 replaced by their contracts (proved under C01).",
+             ref="DESIGN.md 4 C02/C11"),
+ "C11": dict(technique="Kani contracts (same obligations as C02 read at the limits): Ok iff the request ends within 2^38 / 2^70 bytes, atomic error, seek-to-limit, nonce word frame",
+             text="Exhaustion: Ok iff position+length <= limit, error leaves data, position and invariant unchanged, seek past the end is an error, the IETF nonce word is never disturbed by the counter.",
+             note="as C02", ref="DESIGN.md 4 C02/C11"),
+ "C14": dict(technique="Kani contracts: refill and refill4 both proved equal to the same specification (block of counter+i, counter advance by 1/4 modulo 2^64, stream id frame) on every dispatch arm",
+             text="4-block refill == four 1-block refills follows from both being proved equal to one backend-independent specification, for a symbolic 64-bit counter (all carry positions, the 2^64 wrap) and every backend.",
+             note="drounds enumerated: quick {0,1,2}/{0,2,10}, thorough 0..=10.", ref="DESIGN.md 4 C14"),
+ "C15": dict(technique="Kani function-level contracts, loop-free, full domain",
+             text="set/get stream parameter round trip and isolation, equality with the directly constructed state, stream32_eq/stream64_eq as bi-implications, ChaCha::new layouts.",
+             note="Trusted: Kani/CBMC.", ref="DESIGN.md 4 C15"),
+ "C09": dict(technique="Kani contracts: mix/inv_mix, key schedule, LE word I/O (full domain); byte-level wiring of encrypt_block for an arbitrary subkey table with mix as uninterpreted function, unrolled and no_unroll builds",
+             text="Encryption == Skein 1.3 Threefish for all keys, tweaks and blocks of the three sizes in both feature settings: 72/72/80 rounds, rotation schedule, permutation, subkey injection, final subkey, little-endian I/O.",
+             note="Trusted: Kani/CBMC, the uninterpreted-function rule. The Verus route on extracted code (DESIGN.md 4 C09) is not built; the Kani route is complete on its own.",
+             ref="DESIGN.md 4 C09"),
+ "C10": dict(technique="Kani contracts (decrypt wiring == specification inverse rounds; per-round two-sided inverse lemma with the real MIX) + Verus induction lemma over the rounds",
+             text="decrypt_block == the specification's inverse rounds in reverse order (byte level, arbitrary subkeys); every round and the final subkey are two-sided inverses (Kani, real MIX); composition over all rounds by a Verus induction lemma.",
+             note="The instantiation of the generic Verus lemma to the Rust specification's loops is by inspection (the loops literally iterate round / inv_round).",
+             ref="DESIGN.md 4 C10"),
  "C12": dict(technique="Kani function-level contracts (full-domain symbolic operands, loop-free) per backend x vector type x operation",
              text="Every operation of every Machine vector type on SSE2/SSSE3/SSE4.1(AVX)/AVX2 and the portable backend is proved equal to its scalar word-wise meaning for all operand values, and proved panic-free; complete (no bound) because every harness is loop-free over full-domain inputs.",
              note="Trusted: Kani/CBMC translation; models of PSHUFB, PACKUSWB, PADD* (kani/common/models.rs); AVX and SSE4.1 are the same Rust types and differ only in #[target_feature] code generation.",
@@ -14,8 +39,40 @@ CLAIMED = {
              text="Lane/word/storage/byte construction and read-back, insert/extract for every index, transpose4, to_scalars, endian byte I/O and the little-endian packing of the storage unions are proved for all values on every backend; complete (loop-free, full domain).",
              note="Trusted: Kani/CBMC translation; the instruction models listed for C12.",
              ref="DESIGN.md 4 C12/C13"),
+ "C19": dict(technique="Kani function-level contracts, full domain, overflow checks on",
+             text="Every public method and operator of the five ppv-null types equals plain wrapping scalar arithmetic and cannot panic (debug-profile overflow checks are part of every obligation).",
+             note="Preconditions as stated in the property: rotation amounts 1..bits-1, valid lane indices, slices of the vector's length.",
+             ref="DESIGN.md 4 C19"),
+ "C04": dict(technique="Kani contracts on the mode of operation: finalize/update/default/reset from an arbitrary state with put_block as uninterpreted function + call log",
+             text="Padding (0x80, zeros, 0x01/0x00 marker, 0x81 when they coincide, 64/128-bit big-endian length), one-vs-two final blocks, bit counter excluding padding and 0 for a padding-only block, chaining, IVs and truncated big-endian output are proved for a symbolic chaining value and bit counter, so for every message length.",
+             note="The compression function (G function, sigma schedule, rounds) versus the BLAKE specification is NOT yet under contract in this build (planned: round32/round64 leaf + put_block wiring); it is assumed here. Shapes: quick = boundary fills, thorough = every fill.",
+             ref="DESIGN.md 4 C04"),
+ "C05": dict(technique="Kani contracts on the mode of operation with process_block as contract stub (UBI step uninterpreted) + Threefish contracts (C09)",
+             text="Configuration UBI block carrying N, lazy message UBI with first/final flags and byte position, single zero block for the empty message, counter-mode output blocks truncated to N bytes, for output sizes N in a stated finite set, from an arbitrary state (symbolic chaining value and position).",
+             note="process_block == one UBI step over Threefish is taken by inspection (with_tweak/encrypt_block are under contract in C09; the XOR feed-forward is 3 lines). N ranges over {1,7,8,20,32,33,64,65} x256, {1,32,64,65} x512, {1,32,64,128,129,200} x1024. Skein256/512<200> dropped: Kani false alarm on the 8-byte tail chunk, cross-checked natively (DESIGN.md 8).",
+             ref="DESIGN.md 4 C05"),
+ "C06": dict(technique="Kani contracts on the mode of operation with Compressor::input as uninterpreted function + call log",
+             text="Padding (one block iff block-aligned, else two), 128-bit big-endian bit length, chaining, output = tail of the 1024-bit state, byte counter exact -- for a symbolic chaining value and byte count.",
+             note="NOT decided: bit-sliced F8 == the specification's E8 and the IV constants; assumed (pinned on this host by the repository's 321 KATs). DESIGN.md 4 C06.",
+             ref="DESIGN.md 4 C06"),
+ "C07": dict(technique="Kani contracts on the mode of operation with init/tf/of as uninterpreted functions + call log",
+             text="IV = output size big-endian, padding with the 64-bit big-endian block count including padding blocks for every 64-bit counter value, one-vs-two final blocks at the <=8-bytes-left boundary, output transformation and truncation windows, reset of the truncated variants.",
+             note="NOT decided: P/Q permutations == the byte-matrix specification (needs an AESENCLAST model and a layout relation); assumed (pinned on this host by the repository's KATs). DESIGN.md 4 C07.",
+             ref="DESIGN.md 4 C07"),
+ "C08": dict(technique="Kani contracts: abstract-view contract of update ('the stream view grows by exactly the bytes given') from an arbitrary state for all 15 hash types; clone independence; reset/default equality",
+             text="update compresses exactly the complete blocks of pending++data in order with the right counters and keeps the remainder; a hasher's state is a function of the stream view, so every partition gives the same state; clone and reset contracts.",
+             note="Per-call shapes (fill, length <= 300). The partition-invariance step (associativity of concatenation over the abstract view) is a meta-level argument, DESIGN.md 4 C08.",
+             ref="DESIGN.md 4 C08"),
+ "C17": dict(technique="Kani contracts: the counters are symbolic over their full range in the finalize/update contracts of every hash type",
+             text="BLAKE t (64/128-bit, carry between the words), Groestl block_counter (all 64 bits), JH datalen (< 2^61 bytes), Skein byte position (< 2^64) are symbolic in the mode-of-operation obligations, so every word-boundary crossing is covered.",
+             note="Format limits are preconditions (no wrap of the 2W-bit BLAKE counter, JH bit length < 2^64, Skein position < 2^64).",
+             ref="DESIGN.md 4 C17"),
 }
 NOT_YET = "check under construction in this session; not claimed until it is sound and green"
+NA_MORE = {
+ "C03": "assembled from per-backend obligations of C12/C13/C01/C14; the BLAKE and JH per-backend wiring is not built yet, so not claimed as a whole",
+ "C16": "bounds half is checked inside every Kani harness; the alignment/guard-page half is not decidable by either verifier (DESIGN.md 4 C16); not claimed yet",
+}
 NA = {
  "C18": "contracts cannot express it: Kani has no threads, Verus would need its permission types on lazy_static/std_detect internals (DESIGN.md 4 C18)",
  "C20": "whether a feature combination compiles is decided by rustc, not by a contract on any function (DESIGN.md 4 C20)",
@@ -40,7 +97,7 @@ def main():
     for pid in ALL:
         if pid in CLAIMED:
             continue
-        na.append({"property_id": pid, "reason": NA.get(pid, NOT_YET)})
+        na.append({"property_id": pid, "reason": NA.get(pid, NA_MORE.get(pid, NOT_YET))})
     m = {
         "version": 1,
         "setup_cmd": "./check --setup",
@@ -61,6 +118,6 @@ def main():
     json.dump(m, open(os.path.join(VERIF, "MANIFEST.json"), "w"), indent=1)
     print("MANIFEST.json written:", len(checks), "checks")
 
-HOOK_COMMITS = []
+HOOK_COMMITS = ['a29741f', '70deee0', '7dd6e23', '8d14d16', '0a1406b', 'a088e70']
 if __name__ == "__main__":
     main()
